@@ -139,13 +139,20 @@ theorem sami_lang_test_pinned : Generated.samiLangTestPre = some "lang: " ∧ Ge
 /-- **C14 (SAMI, no language is lost on writing).** whatever the stylesheet holds already and whatever the language codes
     are — prefixes of one another included — after the writer's loop over the languages the stylesheet contains the rule
     `lang: <code>;` of every language of the set, so that every `<p class=code>` is read back under its language -/
-theorem stylesheet_declares_every_language (extra : Str → Str) (sheet : Str) (langs : List Str) :
-    ∀ l ∈ langs, Str.contains (langRule l) (declareLangs langRule extra sheet langs) = true :=
-  SamiW.declares_all extra langs sheet
+theorem stylesheet_declares_every_language (extra : Str → Str) (labels : Str → Bool) (sheet : Str) (langs : List Str) :
+    ∀ l ∈ langs, Str.contains (langRule l) (declareLangs langRule extra labels sheet langs) = true :=
+  SamiW.declares_all extra labels langs sheet
+
+/-- **C14 (SAMI, the class a paragraph is labelled with exists).** a language some of whose paragraphs are written with the
+    language code as their class (their own class declares no language: styled through an id, say) gets a class rule of that
+    name — whatever other classes already declare the language -/
+theorem stylesheet_declares_label_class (extra : Str → Str) (labels : Str → Bool) (sheet : Str) (langs : List Str) :
+    ∀ l ∈ langs, labels l = true → Str.contains (blockHead l) (declareLangs langRule extra labels sheet langs) = true :=
+  SamiW.labelled_has_class extra labels langs sheet
 
 /-- the test as it was before the repair c3a3023 (`'lang: es'`, no semicolon) left `es` undeclared after `est` -/
 theorem stylesheet_old_test_counterexample :
     Str.contains (langRule "es".toList)
-      (declareLangs (fun l => "lang: ".toList ++ l) (fun _ => []) "<!--".toList ["est".toList, "es".toList]) = false := by decide
+      (declareLangs (fun l => "lang: ".toList ++ l) (fun _ => []) (fun _ => false) "<!--".toList ["est".toList, "es".toList]) = false := by decide
 
 end PcVerif.Props.C14
